@@ -16,6 +16,8 @@ def tasks(run):
 
 
 def run(run):
+    from pyvc import skeleton
+    skeleton.apply(run, 'C14')
     from pyvc import components, runner
     runner.load_contracts()
     components.ast_functions(run, ['PEPit/wrappers/cvxpy_wrapper.py::CvxpyWrapper.prepare_heuristic', 'PEPit/wrappers/cvxpy_wrapper.py::CvxpyWrapper.heuristic'],
